@@ -374,8 +374,8 @@ def dispatch : Dispatch := fun W op args =>
   | "r.to_f64.asis", [a, b] => do let n ← parseInt a; let d ← parseNat b; if d = 0 then none else pure (ratToFloatOp "f64" rat64 f64Fixed n d true)
   | "r.to_f32_fast", [a, b] => do let n ← parseInt a; let d ← parseNat b; if d = 0 then none else pure (ratFastOp "f32" rat32 f32Fixed n d)
   | "r.to_f64_fast", [a, b] => do let n ← parseInt a; let d ← parseNat b; if d = 0 then none else pure (ratFastOp "f64" rat64 f64Fixed n d)
-  | "r.tryto_f32", [a, b] => do let n ← parseInt a; let d ← parseNat b; if d = 0 then none else pure (chk2 (ratTryToFloatModel "f32" f32Fixed (-149) 128 n d) (ratTryToFloatOp "f32" .binary32 32 n d))
-  | "r.tryto_f64", [a, b] => do let n ← parseInt a; let d ← parseNat b; if d = 0 then none else pure (chk2 (ratTryToFloatModel "f64" f64Fixed (-1074) 1024 n d) (ratTryToFloatOp "f64" .binary64 64 n d))
+  | "r.tryto_f32", [a, b] => do let n ← parseInt a; let d ← parseNat b; if d = 0 then none else pure (chk2 (ratTryToFloatModel "f32" f32Fixed Dashu.Gen.Conv.rbig_try_to_f32_lb Dashu.Gen.Conv.rbig_try_to_f32_ub n d) (ratTryToFloatOp "f32" .binary32 32 n d))
+  | "r.tryto_f64", [a, b] => do let n ← parseInt a; let d ← parseNat b; if d = 0 then none else pure (chk2 (ratTryToFloatModel "f64" f64Fixed Dashu.Gen.Conv.rbig_try_to_f64_lb Dashu.Gen.Conv.rbig_try_to_f64_ub n d) (ratTryToFloatOp "f64" .binary64 64 n d))
   | "r.from_f32", [a] => do
     let b ← parseFloatBits "f32" 32 a
     let m := match ratFromFloat f32Dec b with | .ok (n, d) => ok (ratStr n d) | .error e => ok (errStr e)
